@@ -1,5 +1,6 @@
 import CelModel.Eval
 import CelModel.Macros
+import CelModel.CtxOps
 /-!
 # Line protocol: s-expressions, decoding of cases, printing of answers
 
@@ -280,6 +281,20 @@ def answer (kind : String) (payload : List Sx) : String :=
      | .notMacro => "(not-macro)"
      | .error => "(macro-error)"
      | .ok e => "(expanded " ++ encExpr e ++ ")")
+  | "ctxops", ops =>
+    let decOp : Sx → Option CtxOp := fun x => match x with
+      | .list [.atom "def", .atom n, v] => some (.define (atomName n) (decValue v))
+      | .list [.atom "push"] => some .openScope
+      | .list [.atom "pop"] => some .closeScope
+      | .list [.atom "fn", .atom n] => some (.addFn (atomName n) (.host [] (.const (.int 1))))
+      | .list [.atom "get", .atom n] => some (.lookup (atomName n))
+      | .list [.atom "probe", .atom n] => some (.probeFn (atomName n))
+      | _ => none
+    let obs := runCtxOps {} (ops.filterMap decOp)
+    "(obs" ++ String.join (obs.map (fun o => match o with
+      | .var none => " none"
+      | .var (some v) => " " ++ encValue v
+      | .fn b => if b then " (fn 1)" else " (fn 0)")) ++ ")"
   | _, _ => "(bad-case)"
 
 end Wire
